@@ -29,6 +29,83 @@ var swaps = map[token.Token][]token.Token{
 	token.ADD: {token.SUB}, token.SUB: {token.ADD}, token.MUL: {token.QUO}, token.QUO: {token.MUL},
 }
 
+// second family of operators (-family 2): swapped adjacent call arguments, `x += y` -> `x = y`, numbers inside format
+// strings (widths, precisions) +1, `return <expr>, nil`-style results left alone but a lone `return err` -> `return nil`
+func collect2(fset *token.FileSet, f *ast.File) []site {
+	var sites []site
+	pos := func(n ast.Node) string { return fset.Position(n.Pos()).String() }
+	ast.Inspect(f, func(n ast.Node) bool {
+		switch x := n.(type) {
+		case *ast.CallExpr:
+			for i := 0; i+1 < len(x.Args); i++ {
+				i := i
+				if _, ok := x.Args[i].(*ast.BasicLit); ok {
+					if _, ok2 := x.Args[i+1].(*ast.BasicLit); ok2 {
+						continue
+					}
+				}
+				sites = append(sites, site{fmt.Sprintf("%s: swap arguments %d and %d", pos(x), i, i+1), func() { x.Args[i], x.Args[i+1] = x.Args[i+1], x.Args[i] }})
+			}
+		case *ast.AssignStmt:
+			if x.Tok == token.ADD_ASSIGN || x.Tok == token.SUB_ASSIGN || x.Tok == token.MUL_ASSIGN {
+				sites = append(sites, site{fmt.Sprintf("%s: %s -> =", pos(x), x.Tok), func() { x.Tok = token.ASSIGN }})
+			}
+		case *ast.BasicLit:
+			if x.Kind == token.STRING {
+				v := x.Value
+				for i := 0; i < len(v); i++ {
+					if v[i] == '%' {
+						j := i + 1
+						for j < len(v) && (v[j] == '-' || v[j] == '0' || v[j] == '+') {
+							j++
+						}
+						k := j
+						for k < len(v) && v[k] >= '0' && v[k] <= '9' {
+							k++
+						}
+						if k > j {
+							num, _ := strconv.Atoi(v[j:k])
+							nv := v[:j] + strconv.Itoa(num+1) + v[k:]
+							sites = append(sites, site{fmt.Sprintf("%s: format width %d -> %d", pos(x), num, num+1), func() { x.Value = nv }})
+						}
+						if k < len(v) && v[k] == '.' {
+							m := k + 1
+							for m < len(v) && v[m] >= '0' && v[m] <= '9' {
+								m++
+							}
+							if m > k+1 {
+								num, _ := strconv.Atoi(v[k+1 : m])
+								nv := v[:k+1] + strconv.Itoa(num+1) + v[m:]
+								sites = append(sites, site{fmt.Sprintf("%s: format precision %d -> %d", pos(x), num, num+1), func() { x.Value = nv }})
+							}
+						}
+					}
+				}
+			}
+		case *ast.ReturnStmt:
+			if len(x.Results) == 1 {
+				if id, ok := x.Results[0].(*ast.Ident); ok && id.Name == "err" {
+					sites = append(sites, site{fmt.Sprintf("%s: return err -> return nil", pos(x)), func() { x.Results[0] = ast.NewIdent("nil") }})
+				}
+			}
+			if len(x.Results) == 2 {
+				if id, ok := x.Results[1].(*ast.Ident); ok && id.Name == "err" {
+					if b, ok := x.Results[0].(*ast.Ident); ok && (b.Name == "true" || b.Name == "false") {
+						sites = append(sites, site{fmt.Sprintf("%s: return %s, err -> return %s, nil", pos(x), b.Name, b.Name), func() { x.Results[1] = ast.NewIdent("nil") }})
+						flip := "false"
+						if b.Name == "false" {
+							flip = "true"
+						}
+						sites = append(sites, site{fmt.Sprintf("%s: return %s, err -> return %s, err", pos(x), b.Name, flip), func() { x.Results[0] = ast.NewIdent(flip) }})
+					}
+				}
+			}
+		}
+		return true
+	})
+	return sites
+}
+
 func collect(fset *token.FileSet, f *ast.File) []site {
 	var sites []site
 	pos := func(n ast.Node) string { return fset.Position(n.Pos()).String() }
@@ -184,6 +261,9 @@ func main() {
 		os.Exit(2)
 	}
 	sites := collect(fset, f)
+	if os.Getenv("MUTATE_FAMILY") == "2" {
+		sites = collect2(fset, f)
+	}
 	if os.Args[1] == "-list" {
 		fmt.Println(len(sites))
 		for i, s := range sites {
